@@ -16,7 +16,7 @@ func init() {
 		Rule: "every (configuration x type-in-position x boundary value) of the universe (values at the reduced level): Unmarshal side - the input is snapshotted, decoded from a buffer with spare capacity, must be unchanged afterwards, no string / slice backing array reachable from the decoded value may intersect input[0:cap] (address ranges), " +
 			"and after the input is overwritten and re-used for another Marshal the decoded value still equals its deep copy; Marshal side - the value and buf[:len] are snapshotted and must be unchanged, and the appended region must not intersect memory reachable from the value. non-trivial = value containing at least one non-empty string or slice",
 		Assumptions: []string{"address ranges are read with reflect/unsafe from the live values; map bucket storage is not inspected directly, its keys and values are (via iteration)"},
-		Work:        func(c *mc.Ctx) { enumCases(c, c11Case) },
+		Work:        func(c *mc.Ctx) { enumItems(c, withRecursive(ref.Universe(c.Tier)), c11Case) },
 		Post:        func(a *mc.Agg) []string { return needDims(a, "ranges-checked", "scribbled", "marshal-side") },
 	})
 }
